@@ -560,3 +560,35 @@ def generic_replay(ctx, path, hdir, test_re, prop, transcript):
     print(open(d + "/other.txt").read())
     print("REPLAY: implementation %s the specification" % ("DIFFERS from" if differs else "agrees with"))
     return 1 if differs else 0
+
+
+def run_monitor(ctx, prop, transcript):
+    """run `prvdrv monitor` over the implementation transcript; returns list of (case_header, complaint)"""
+    impl = "%s/%s" % (ctx.out, transcript)
+    outp = "%s/%s.monitor.txt" % (ctx.out, transcript)
+    rc, err = drv("monitor", prop, impl, outp)
+    if rc != 0:
+        ctx.tie_failures.append("driver monitor %s failed: %s" % (prop, err[-200:]))
+        return []
+    res = []
+    cur = ""
+    for line in open(outp, errors="replace"):
+        line = line.rstrip("\n")
+        if line.startswith("# case"):
+            cur = line
+        elif line.startswith("! "):
+            res.append((cur, line[2:]))
+    return res
+
+
+def handle_complaints(ctx, complaints, sig_of):
+    """PROP complaints are property violations (with the op as replay), CORR ones a broken tie"""
+    for case, c in complaints:
+        body, _, op = c.partition(" @ ")
+        if body.startswith("PROP "):
+            sig = sig_of(body[5:], op)
+            violation(ctx, sig, body[5:] + " @ " + op, {"clause": body[5:], "case": case, "ops": ["> " + op],
+                                                           "how_to_replay": "bin/check %s --replay <this file>" % ctx.pid})
+        elif body.startswith("CORR "):
+            if not any("correspondence" in t for t in ctx.tie_failures):
+                ctx.tie_failures.append("correspondence broken: %s @ %s (%s)" % (body[5:], op, case))
